@@ -1605,6 +1605,29 @@ keep("P47", "contains via a loop with early return",
 """)], None)
 
 
+brk("B125", "check_schema raises the *best* error instead of the first",
+    [(V, """            for error in cls(cls.META_SCHEMA).iter_errors(schema):
+                raise exceptions.SchemaError.create_from(error)""", """            error = exceptions.best_match(cls(cls.META_SCHEMA).iter_errors(schema))
+            if error is not None:
+                raise exceptions.SchemaError.create_from(error)""")], {"C11": "R11.1|", "C04": "R4.4b|"})
+
+brk("B126", "resolve_remote: requests serves every scheme without a handler",
+    [(V, """        elif scheme in [u"http", u"https"] and requests:""", """        elif requests:""")], {"C15": "R15.7|", "C02": "R2.9|"})
+
+brk("B127", "multipleOf: integer divisors go through the float quotient when the instance is a float",
+    [(KV, """    if isinstance(dB, float):
+        try:
+            quotient = instance / dB""", """    if isinstance(dB, float) or isinstance(instance, float):
+        try:
+            quotient = instance / dB""")], {"C09": "R9."})
+
+brk("B128", "maximum: bound converted with float() for the comparison",
+    [(KV, """    if instance > maximum:
+        yield ValidationError(
+            "%r is greater than the maximum of %r" % (instance, maximum)""", """    if instance > float(maximum):
+        yield ValidationError(
+            "%r is greater than the maximum of %r" % (instance, maximum)""")], {"C09": "R9."})
+
 # whole-tree transformation: every local and every positionally-passed parameter renamed, plain top-level functions
 # reordered, all eight modules re-emitted through ast.unparse (every line number and the whole layout change).
 # The repository's suite passes on the transformed tree (checked when the transformation was written).
